@@ -264,10 +264,10 @@ Definition ts_edges (t : thick_segment) : line * line :=
   (L (ec_right (second_edge_start (ts_start_join t))) (ec_right (first_edge_end (ts_end_join t))),
    L (ec_left (first_edge_end (ts_end_join t))) (ec_left (second_edge_start (ts_start_join t)))).
 
-(* thick_segment.rs:50-70 *)
+(* thick_segment.rs:50-71 (a skeleton is boxed by the edge that is drawn, the right one: repair 3241194) *)
 Definition edges_bounding_box (t : thick_segment) : rect :=
   let '(r, l) := ts_edges t in
-  if is_skeleton t then line_bounding_box l
+  if is_skeleton t then line_bounding_box r
   else
     with_corners
       (component_min (component_min (component_min (l_start r) (l_end r)) (l_start l)) (l_end l))
